@@ -93,8 +93,9 @@ class World:
     def observe(self, kind, obj):
         bem = self.bem
         if kind.startswith("Vpot"):
-            n = self.p1.global_dof_count
-            return np.array([np.asarray(obj.evaluate(bem.GridFunction(self.p1, coefficients=np.eye(n)[j]))).reshape(-1) for j in range(n)]), None
+            sp = obj.space  # the space the operator was created with (the world's current spaces may have been replaced since)
+            n = sp.global_dof_count
+            return np.array([np.asarray(obj.evaluate(bem.GridFunction(sp, coefficients=np.eye(n)[j]))).reshape(-1) for j in range(n)]), None
         w = obj.weak_form()
         w2 = obj.weak_form()
         ident = w is w2
